@@ -185,7 +185,10 @@ class CacheDatasetC(ClassContract):
         return ('C10:iteration-reads-through-the-cache', z3.BoolVal(not direct))
 
     def _wrap(oy, po, nd=_no_direct_upstream):
-        return (lambda S, v: oy(S, v) + [nd(S)]), (lambda S, o: po(S, o) + [nd(S)])
+        # the same fact under C09: what iteration hands out is what self[i] returns -- on a miss the value is
+        # serialised into the cache BEFORE it is handed out (so the consumer can never mutate what gets stored)
+        nd9 = lambda S: ('C09:iteration-hands-out-only-what-self[i]-returns(stored-before-handed-out)', nd(S)[1])     # noqa
+        return (lambda S, v: oy(S, v) + [nd(S), nd9(S)]), (lambda S, o: po(S, o) + [nd(S), nd9(S)])
     _oy, _po = _wrap(*iter_clauses(self_view, False))
     _oyk, _pok = _wrap(*iter_clauses(self_view, True))
     methods = dict(
@@ -194,15 +197,20 @@ class CacheDatasetC(ClassContract):
                     requires=lambda S: z3.And(self_view(S).idx, _inv_instances(S, [S.old.item, _norm(S)])),
                     post=_getitem_post('int'),
                     hooks=cache_hooks(), props=('C02', 'C09', 'C10')),
+        ] + [
+            Variant('int:' + k_, params={'item': k_},
+                    requires=lambda S: z3.And(self_view(S).idx, _inv_instances(S, [S.old.item, _norm(S)])),
+                    post=_getitem_post('int'), hooks=cache_hooks(), props=('C02',)) for k_ in ('np.int8', 'np.uint8')
+        ] + [
             Variant('str', params={'item': 'key'},
                     requires=lambda S: z3.And(self_view(S).idx, self_view(S).keys,
                                               _inv_instances(S, [AbsView(F(S)['input_dataset'].t).kpos(S.old.item)])),
                     post=_getitem_post('str'), hooks=cache_hooks(), props=('C03', 'C10'))],
         __iter__=[Variant('values', params={'with_key': 'false'}, generator=True, on_yield=_oy, post=_po,
-                          loops={'src:range(len(self))': _iter_inv}, props=('C01', 'C10'), hooks=cache_hooks(),
+                          loops={'src:range(len(self))': _iter_inv}, props=('C01', 'C10', 'C09'), hooks=cache_hooks(),
                           requires=lambda S: self_view(S).idx),
                   Variant('items', params={'with_key': 'true'}, generator=True, on_yield=_oyk, post=_pok,
-                          loops={'src:range(len(self))': _iter_inv}, props=('C03', 'C10'), hooks=cache_hooks(),
+                          loops={'src:range(len(self))': _iter_inv}, props=('C03', 'C10', 'C09'), hooks=cache_hooks(),
                           requires=lambda S: z3.And(self_view(S).idx, self_view(S).keys))],
         __len__=[Variant('len', post=post_len(self_view), props=('C02',))],
         keys=[Variant('keys', post=post_keys(self_view), requires=lambda S: self_view(S).keys, props=('C03',),
